@@ -1,5 +1,6 @@
 import TsVerif.C03.DriverLemmas2
 import TsVerif.C03.DeriveLemmas
+import TsVerif.C03.Memo
 import TsVerif.C03.LangLemmas
 import TsVerif.C03.DynLemmas
 import TsVerif.C03.PrattLemmas
@@ -38,7 +39,7 @@ dumped tables); **judged** = decided per explored string by a verified checker o
 | "the grammar derives it ⇒ reports no error" | `table_complete_for_its_productions`, `grammar_covered_by_productions`, `parser_complete_per_grammar` (ALL strings of non-extra terminals; fuel existential) | partial: `coverOK ∧ completeOK` — 363/746 (for covered grammars without precedence and one action per cell, 171, failing is a violation); outside: judged per string (oracle up to L, generated sentences), except members lost to a statically resolved real LR(1) conflict (by design; counted: 37) |
 | "exactly when" (both halves together) | `parser_recognises_exactly_its_grammar` : accepts ↔ `DerivesTok` | partial: all four validations — 363/746 |
 | the membership oracle behind the per-string judgement never claims a non-member | `enum_sound`, `oracle_sound` | proved (its completeness at the fixpoint: not proved; converged on 710/710) |
-| "the tree is a derivation of the grammar" (fields, aliases, hidden/inlined rules, extras) | `check_sound` : `checkDerivation g t = true → Derives g t`; `driver_yield` (leaves = tokens) | judged per error-free real tree (91135/91135 pass) with a proved checker; `check_complete` not proved |
+| "the tree is a derivation of the grammar" (fields, aliases, hidden/inlined rules, extras) | `check_sound`, `check_memo_sound` : `checkDerivationM g t = true → Derives g t`; `driver_yield` (leaves = tokens) | judged per error-free real tree (91135/91135 pass) with a proved checker; `check_complete` not proved |
 | "the unique one for conflict-free grammars" | — (`unique_eq` not proved); the model driver is deterministic and its tree equals the real internal tree | judged (correspondence on every accepted string) |
 | "for operator grammars the one selected by the declared precedence and associativity" | `pratt_yield`, `pratt_respects` (binary/prefix/postfix, integer/negative/default levels, rules sharing an operator token) | proved about the Pratt model; real tree = Pratt tree judged per string (1.76 M strings incl. all chains of two and three operators) |
 | "declared conflicts: the tree is one of the grammar's derivations" | `check_sound`; `glr_yield` (every accepting run of a multi-action table yields the token string) | judged per string; the GLR model (`parseAll`) is tied by correspondence (version merging not modelled) |
@@ -77,8 +78,15 @@ theorem check_sound (g : Grammar) (t : VNode) (h : checkDerivation g t = true) :
     simp only [Bool.and_eq_true, decide_eq_true_eq, Bool.not_eq_true', Option.isNone_iff_eq_none] at h
     obtain ⟨⟨⟨⟨hk, hn⟩, he⟩, hf⟩, hbody⟩ := h
     subst hk hn he hf
-    exact ⟨b, kids, hb, rfl, (sound_all g _).2.1 b kids hbody⟩
+    exact ⟨b, kids, hb, rfl, checkBody_sound g _ b kids hbody⟩
   · cases h
+
+/-- `check_memo_sound`: the same for the checker the driver runs, which checks the children of every
+node once (bottom-up table of node checks) instead of once per alternative that mentions the node —
+`checkDerivation` is exponential in the depth of left-nested trees for rules with two alternatives
+that start with the same recursive symbol. -/
+theorem check_memo_sound (g : Grammar) (t : VNode) (h : checkDerivationM g t = true) : Derives g t :=
+  checkM_sound g t h
 
 /-- `enum_sound`: every string the bounded enumerator lists for a (non-token) rule is derivable from it. -/
 theorem enum_sound (g : Grammar) (L k : Nat) (x : String) (b : Rule) (w : List Tok)
@@ -352,6 +360,7 @@ example : checkDerivation tinyGrammar
     (.mk "s" true false none [.mk "a" false false none [], .mk "b" false false none [], .mk "y" true false (some "f") []]) = true := by
   decide
 example : checkDerivation tinyGrammar (.mk "s" true false none [.mk "b" false false none []]) = false := by decide
+example : checkDerivationM tinyGrammar (.mk "s" true false none [.mk "b" false false none []]) = false := by decide
 
 example : selectTree ⟨0, 0⟩ ⟨0, 1⟩ = some true := by decide
 example : selectTree ⟨0, 2⟩ ⟨0, 1⟩ = some false := by decide
